@@ -128,7 +128,8 @@ def gen_cases(rng, tier):
         yield {"n": n, "order": order, "slots": slots, "exec": ex, "fails": [rng.randrange(n)],
                "mode": "ctl", "choices": [rng.randint(0, 4) for _ in range(4 * n)],
                "rerun": {"exec2": [i for i in range(n) if rng.random() < 0.5],
-                         "choices2": [rng.randint(0, 4) for _ in range(4 * n)]}}
+                         "choices2": [rng.randint(0, 4) for _ in range(4 * n)],
+                         "swap": rng.sample(range(n), rng.choice([0, 0, 1, 1, 2]))}}
     # fine interleaving: callbacks on their own thread, stepped in two halves
     for _ in range(60 if tier == "quick" else 600):
         n = rng.randint(2, 5 if tier == "quick" else 8)
@@ -155,6 +156,10 @@ def corpus():
     yield {"n": 3, "order": [0, 1, 2], "slots": {"0": [[], [], []], "1": [[], [], []], "2": [[0], [1], []]},
            "exec": [], "fails": [0], "mode": "ctl", "choices": [],
            "rerun": {"exec2": [1], "choices2": []}}
+    # a child replaced by a new object under the same label between two runs: the wiring must be derived again
+    yield {"n": 3, "order": [0, 1, 2], "slots": {"0": [[], [], []], "1": [[0], [], []], "2": [[1], [0], []]},
+           "exec": [], "fails": [2], "mode": "ctl", "choices": [],
+           "rerun": {"exec2": [], "choices2": [], "swap": [1]}}
     # the finish/emit gap: chain 0 -> 1, node 0 on an executor, the loop re-tests between the two calls
     yield {"n": 2, "order": [0, 1], "slots": {"0": [[], [], []], "1": [[0], [], []]}, "exec": [0], "fails": [],
            "mode": "ctl", "fine": True, "choices": [0, 0, 0, 0]}
@@ -189,11 +194,42 @@ def _run_once(case, choices):
         wf.failed = False
         for n in ns.values():
             n.failed = False
-        res2, seen2 = _one_run(case, wf, ns, list(rr["choices2"]), rr["exec2"], "ctl")
+        # edits between the runs: a child is removed and a NEW node put in its place (same label, same data wiring)
+        case2 = case_after_swaps(case)
+        for i in rr.get("swap", []):
+            old = ns[i]
+            ins = {slot: list(old.inputs[slot].connections) for slot in "abc"}  # newest first
+            outs = list(old.outputs.o.connections)
+            wf.remove_child(old)
+            new = nodes.term_node(i, label=f"n{i}")
+            new.use_cache = False
+            wf.add_child(new)
+            ns[i] = new
+            for slot, ups in ins.items():
+                for up in reversed(ups):
+                    new.inputs[slot].connect(up)
+            for down in outs:
+                down.connect(new.outputs.o)  # becomes the newest connection of that input
+        res2, seen2 = _one_run(case2, wf, ns, list(rr["choices2"]), rr["exec2"], "ctl")
         res2["epoch"] = 1
+        res2["case2"] = case2
         res["run2"] = res2
         seen = seen + seen2
     return res, seen
+
+
+def case_after_swaps(case):
+    """the data graph after the between-run edits: a re-added child is the NEWEST connection of its receivers"""
+    rr = case.get("rerun") or {}
+    slots = {k: [list(u) for u in v] for k, v in case["slots"].items()}
+    for i in rr.get("swap", []):
+        for k in slots:
+            for ups in slots[k]:
+                if i in ups:
+                    # the old connection order is kept among the others; the new object's connection comes last = newest
+                    n_i = ups.count(i)
+                    ups[:] = [x for x in ups if x != i] + [i] * (1 if n_i else 0)
+    return {**case, "slots": slots}
 
 
 def _one_run(case, wf, ns, choices, on_exec, mode):
@@ -450,8 +486,19 @@ def _model_input_one(case, r):
     lines.append("run")
     if r.get("run2"):
         r2 = r["run2"]
+        c2 = r2.get("case2", case)
+        lines.append(f"n {n}")  # the graph as it is for the second run (edits between the runs)
+        for i in range(n):
+            for ups in c2["slots"][str(i)]:
+                lines.append(f"slot {i} " + " ".join(map(str, reversed(ups))))
+        w2 = r2["wiring"]
+        for j in range(n):
+            lines.append(f"down {j} " + " ".join(map(str, (w2.get("down") or {}).get(j, []))))
+        lines.append("starters " + " ".join(map(str, w2.get("starters", []))))
         lines.append("fails")
         lines.append("exec " + " ".join(map(str, case["rerun"]["exec2"])))
+        lines.append("rank " + " ".join(map(str, _rank(c2))))
+        lines.append("fresh " + " ".join(map(str, case["rerun"].get("swap", []))))
         lines.append("sched " + " ".join(r2["trace"]))
         lines.append("rerun")
     return lines
@@ -558,7 +605,7 @@ def oracle(case, impl):
             if "run2" not in r:
                 return [{"clause": "rerun-not-possible", "detail": f"after run one: {r['flags']} late={r['late_jobs']}",
                          "signature": {"clause": "rerun-not-possible"}}]
-            f = check_run(case, r["run2"])
+            f = check_run(r["run2"].get("case2", case), r["run2"])
         else:
             f = check_run(case, r)
         if f:
